@@ -455,7 +455,17 @@ pub fn lexa(fields: &[&str]) -> String
 	}
 	out.join(" ")
 }
-fn render_all(errors: &[penne::alpha::Error], units: &[(String, String)]) -> Result<(usize, u64), String>
+pub fn render_all(errors: &[penne::alpha::Error], units: &[(String, String)]) -> Result<(usize, u64), String>
+{
+	render_all_indexed(errors, units, ariadne::IndexType::Char)
+}
+
+/// `index_type`: Char for the first-generation compiler, Byte for the second-generation front end (stdout.rs: StdOut::new)
+pub fn render_all_indexed(
+	errors: &[penne::alpha::Error],
+	units: &[(String, String)],
+	index_type: ariadne::IndexType,
+) -> Result<(usize, u64), String>
 {
 	let mut hash: u64 = 0;
 	// every colour / charset configuration the CLI offers (stdout.rs: StdOut::new)
@@ -465,7 +475,7 @@ fn render_all(errors: &[penne::alpha::Error], units: &[(String, String)]) -> Res
 		for charset in [ariadne::CharSet::Unicode, ariadne::CharSet::Ascii]
 		{
 			let ariadne_config = ariadne::Config::default()
-				.with_index_type(ariadne::IndexType::Char)
+				.with_index_type(index_type)
 				.with_color(with_color)
 				.with_char_set(charset);
 			let config = penne::alpha::error::Config::from(ariadne_config).with_color(with_color);
